@@ -118,20 +118,22 @@ def stepRef (w : RWorld) : List String → Option (RWorld × String)
     -- a grid built from the arrays of the (caller) objects listed, in that order, repeats allowed
     let idx ← parseNatList? refsOf
     let refs := (idx.map fun i => (w.objs.getD i ⟨[]⟩).refs).flatten
-    if idx.any (· ≥ w.objs.length) then none else
+    if idx.any (· ≥ w.objs.length) then pure (w, "err noobj") else
     pure (w.construct refs, s!"ok {w.objs.length}")
   | ["copy", i] => do
     let i ← parseNat? i
-    if i ≥ w.objs.length then none else pure (w.copy i, s!"ok {w.objs.length}")
+    if i ≥ w.objs.length then pure (w, "err noobj") else pure (w.copy i, s!"ok {w.objs.length}")
   | "inplace" :: i :: ops => do
     let i ← parseNat? i; let ops ← ops.mapM parseArrOp?
-    if i ≥ w.objs.length then none else pure (w.inplace i ops, "ok")
+    if i ≥ w.objs.length then pure (w, "err noobj") else pure (w.inplace i ops, "ok")
   | "copied" :: i :: ops => do
     let i ← parseNat? i; let ops ← ops.mapM parseArrOp?
-    if i ≥ w.objs.length then none else pure (w.copied i ops, s!"ok {w.objs.length}")
+    if i ≥ w.objs.length then pure (w, "err noobj") else pure (w.copied i ops, s!"ok {w.objs.length}")
   | ["val", i] => do
-    let i ← parseNat? i; let o ← w.objs[i]?
-    pure (w, "ok " ++ showRatLists (o.val w.heap))
+    let i ← parseNat? i
+    match w.objs[i]? with
+    | some o => pure (w, "ok " ++ showRatLists (o.val w.heap))
+    | none => pure (w, "err noobj")
   | ["shared"] => some (w, s!"ok {countShared w.allRefs}")
   | _ => none
 
